@@ -94,7 +94,14 @@ func VerifC10_History() {
 	type step struct{ op, obj int }
 	var steps []step
 	for i := 0; i < k; i++ {
-		steps = append(steps, step{zzverif.IntRange("op", 0, hOps-1), zzverif.IntRange("obj", 0, len(texts)-1)})
+		op := hExample
+		if k == 2 || i == 1 {
+			// with three steps (thorough) the first and the last one are
+			// Example() - the operation whose result can alias a pooled
+			// buffer - and the middle one is any operation
+			op = zzverif.IntRange("op", 0, hOps-1)
+		}
+		steps = append(steps, step{op, zzverif.IntRange("obj", 0, len(texts)-1)})
 	}
 	// reference: each call alone, nothing pooled
 	zzverif.SetPoolMode(1)
